@@ -54,6 +54,15 @@ def float_close(x, y, dt):
 # largest finite magnitude among the float inputs of the case being judged (cancellation error of a
 # float32 / float64 kernel is proportional to it); set by judge_op
 SCALE_HINT = [0.0]
+# IEEE-exact streams (+ - * / on float32 / float64 are correctly rounded in Go and in the driver):
+# compared bit for bit, any NaN matching any NaN; set by judge_op from the driver's tag "ieee-exact"
+EXACT_BITS = [False]
+
+
+def float_same(x, y):
+    if math.isnan(x) or math.isnan(y):
+        return math.isnan(x) and math.isnan(y)
+    return x == y and math.copysign(1.0, x) == math.copysign(1.0, y)
 
 
 def tensor_eq(a, b):
@@ -67,6 +76,8 @@ def tensor_eq(a, b):
         fa, fb = floats_of(a), floats_of(b)
         if len(fa) != len(fb):
             return False
+        if EXACT_BITS[0]:
+            return all(float_same(x, y) for x, y in zip(fa, fb))
         # absolute slack proportional to the largest finite magnitude in the tensor (cancellation)
         scale = max([1.0, SCALE_HINT[0]] + [abs(v) for v in fa + fb if math.isfinite(v)])
         atol = (3e-6 if a.get("dt") == "f32" else 1e-13) * scale
@@ -230,6 +241,7 @@ def judge_op(c):
     """operator-level case: impl/model/spec all of the form {status, outs, mut}; spec has a domain."""
     impl, model, spec = c["impl"], c.get("model"), c.get("spec")
     guard = c.get("guard") or []
+    EXACT_BITS[0] = "ieee-exact" in (c.get("tags") or [])
     SCALE_HINT[0] = 0.0
     for t in c.get("inputs") or []:
         if t and t.get("bits"):
@@ -278,6 +290,10 @@ def judge_op(c):
         verdict, what = unary_ref_check(c)
     if verdict == "unjudged" and c.get("op") in ("Softmax", "LogSoftmax") and impl["status"] == "ok" and c.get("p", {}).get("props"):
         verdict, what = softmax_props(c)
+    # an operator instance that was applied before must answer like a fresh one
+    if verdict != "violates" and impl.get("reuse"):
+        verdict, what = "violates", "a re-used operator instance answers differently after " + "; ".join(impl["reuse"])[:200]
+        return J(corr=corr, verdict=verdict, tag="instance_reuse." + str(c.get("op")), what=what, key=key)
     tag = None
     if verdict == "violates":
         cls = "panic" if impl["status"] == "panic" else ("error" if impl["status"] == "error" else
@@ -578,6 +594,8 @@ def judge_history(c):
             return J(corr="skip", verdict="violates", tag="history.panic", what=f"Run {i} panics: {s.get('detail','')[:100]}", key=key)
         if not s["equal_fresh"]:
             return J(corr="skip", verdict="violates", tag="history.depends_on_history", what=f"Run {i} differs from a freshly loaded model: {s.get('detail','')[:140]}", key=key)
+        if s.get("equal_repeat") is False:
+            return J(corr="skip", verdict="violates", tag="history.depends_on_history", what=f"Run {i}{s.get('detail','')[:160]}", key=key)
         if not s["inputs_unchanged"]:
             return J(corr="skip", verdict="violates", tag="history.caller_tensor_modified", what=f"Run {i}: {s.get('detail','')[:140]}", key=key)
         if not s["weights_unchanged"]:
@@ -596,6 +614,8 @@ def judge_purity(c):
     (shape, strides, element type, contents); model and implementation agree on that"""
     j = judge_op(c)
     impl = c["impl"]
+    if (c.get("stream") or "").startswith("lazyT:"):
+        j.corr = "skip"   # values on non-contiguous inputs are not compared, only purity is
     if impl.get("mut"):
         return J(corr=j.corr, verdict="violates", tag="purity." + str(c.get("op")) + ".mutates-input",
                  what=f"{c.get('op')} modified an input: {impl.get('mut')}", key=j.key)
